@@ -108,6 +108,7 @@ type PElem struct {
 	MapElems *PElements // inlined map
 	Compact  []PElem    // inlined compact map: values in cached-key order
 	ContentLen int      // bytes of the elements part of an inlined container
+	Start, CntPos int   // byte offsets in the register: of the element, of the count head of an inlined array / compact map
 }
 
 type PMapEntry struct {
@@ -134,6 +135,7 @@ type PExtra struct {
 	Seed    uint64
 	Digests []uint64
 	Keys    []PElem
+	CountPos int // byte offset of the count head in the register
 }
 
 type PChildHeader struct {
@@ -286,6 +288,7 @@ func (r *rd) parseElem() (PElem, error) {
 			switch n {
 			case 250:
 				e.Kind = "inl.arr"
+				e.CntPos = r.p
 				cnt, err := r.expect(4, "inlined array elements")
 				if err != nil {
 					return PElem{}, err
@@ -306,6 +309,7 @@ func (r *rd) parseElem() (PElem, error) {
 				e.MapElems = me
 			case 252:
 				e.Kind = "inl.cmap"
+				e.CntPos = r.p
 				cnt, err := r.expect(4, "compact map values")
 				if err != nil {
 					return PElem{}, err
@@ -326,6 +330,7 @@ func (r *rd) parseElem() (PElem, error) {
 		return PElem{}, fmt.Errorf("unexpected element major type %d at offset %d", m, start)
 	}
 	e.Size = r.p - start
+	e.Start = start
 	return e, nil
 }
 
@@ -480,7 +485,8 @@ func (r *rd) parseIED(p *PReg) error {
 			if err != nil {
 				return err
 			}
-			if x.Count, err = r.expect(0, "map count"); err != nil {
+			x.CountPos = r.p
+		if x.Count, err = r.expect(0, "map count"); err != nil {
 				return err
 			}
 			if x.Seed, err = r.expect(0, "map seed"); err != nil {
